@@ -31,7 +31,12 @@ CASES = {'quick': 110, 'thorough': 4000}
 
 def strategy(tier):
     w = {'mixed': 4, 'growshrink': 2, 'deep': 2, 'links': 5, 'boot': 2, 'exactfill': 1, 'cegap': 2, 'samename': 4, 'bootlinks': 2, 'reloctwins': 1, 'readd': 2, 'symcomps': 1}
-    return st.tuples(gen.with_reopens(gen.any_profile(reopen_ok=True, weights=w)), st.sampled_from([1, 512, 2048, 8192, 70000]))
+    base = gen.any_profile(reopen_ok=True, weights=w)          # (in effect uniform over the profiles, see gen.weighted)
+    # two profiles whose defects show rarely per case get a real share of their own (the detection of seeds C02 and C02-b
+    # turned out to hang on the random stream: 5-13 hits per run before, none after an unrelated generator change)
+    more = [gen.cegap(reopen_ok=True).map(lambda p: dict(p, profile='cegap')), gen.samename(reopen_ok=True).map(lambda p: dict(p, profile='samename')),
+            gen.linktwins(reopen_ok=True).map(lambda p: dict(p, profile='linktwins'))]
+    return st.tuples(gen.with_reopens(gen.weighted([(base, 10), (more[0], 3), (more[1], 2), (more[2], 2)])), st.sampled_from([1, 512, 2048, 8192, 70000]))
 
 
 def compare(run, iso, blocksize, where, failures):
